@@ -47,7 +47,7 @@ func main() {
 		return
 	}
 	for name, spec := range eng.Contracts {
-		if spec.Assumed || (*unit != "" && !strings.Contains(name, *unit)) {
+		if spec.Assumed || spec.External || (*unit != "" && !strings.Contains(name, *unit)) {
 			continue
 		}
 		rep := eng.GenerateUnit(spec)
